@@ -272,9 +272,27 @@ CubeLevel ==
         \* the numeric measure when there is one
         n_responses       |-> Num0(R(Header.n)),
         missing           |-> Num0(R(IF HasY THEN Header.ymissing ELSE Header.missing)) ]
+\* valid_counts_summary_range: the unweighted valid counts summed over every axis that is
+\* not an item axis (categories, and the selected / not-selected planes of an MR), which
+\* leaves one total per combination of array items; reported as (min, max)
+ItemAxes == {a \in 1..Len(Axes) : Axes[a].role = "el" /\ IsItemLike(Axes[a].d)}
+ItemKey(idx) == [a \in ItemAxes |-> idx[a]]
+VCSummaryRange ==
+  LET vIdx == ValidOnly(Axes, IdxAll)
+      keys == {ItemKey(vIdx[t]) : t \in 1..Len(vIdx)}
+      tot(k) == ISum([t \in 1..Len(vIdx) |-> IF ItemKey(vIdx[t]) = k THEN CellNV(vIdx[t]) ELSE 0])
+      vals == {tot(k) : k \in keys}
+  IN  IF ~(HasY /\ ValidCounts) THEN NoneV
+      \* With an MR dimension the library sums over the axes it finds by position in the
+      \* list of APPARENT dimension types, which has no entry for the selection axis: the
+      \* planes "selected" / "not selected" stay apart (MR last) or the wrong axis is
+      \* summed (MR first).  No listed property covers this accessor: left open there.
+      ELSE IF \E d \in DimSet : Kind(d) = "mr" THEN OpenV
+      ELSE Num1(<<R(Min(vals)), R(Max(vals))>>)
 CubeLevelY ==
   LET yIdx == ValidOnly(Axes, LogicalIdxAll) IN
-  [ means |-> Num1([t \in 1..Len(yIdx) |-> CellMean(yIdx[t])]) ]
+  [ means |-> Num1([t \in 1..Len(yIdx) |-> CellMean(yIdx[t])]),
+    valid_counts_summary_range |-> VCSummaryRange ]
 
 \* C06: everything a partition of a 3-D response reports, decided by the same
 \* respondent-level meaning with the table element in "sel" mode (members of the table
